@@ -8,6 +8,7 @@ import math
 
 import numpy as np
 
+from verifkit.common import bystander
 from verifkit.ref import dist as R
 
 ID = "C14"
@@ -237,6 +238,13 @@ def run_case(rng, idx, tier, lane, ctx):
     if not np.array_equal(yhat.reshape(-1), np.array(mv2, dtype=float)) or not np.array_equal(y, y_before):
         bad("a kernel modified the caller's observation / prediction array in place")
     mv = mv2
+    yb = np.array(case["yhat"], dtype=float).reshape(yhat.shape)
+
+    def _again(obj=obj, yb=yb):
+        return [obj.loss(yb.copy()), obj.diff_loss(yb.copy()), obj.diff2Loss(yb.copy())]
+    w_ = bystander(ctx, _again, counters, what="a kernel object built and evaluated earlier returns something else after another kernel object was used")
+    if w_:
+        bad(w_.pop("what"), **w_)
     # ---- the reference derivatives themselves are cross-checked against numeric differentiation of the reference loss
     i0 = rng.randrange(m)
     for order, reff, numf in ((1, R.d1, R.d1_numeric), (2, R.d2, R.d2_numeric)):
